@@ -2,12 +2,15 @@
 //!
 //!   fv-cachex cache-seq --seed N --programs N --ops N --profiles mix,ttl,cap,iter,burst --out FILE [--kf F14,F15]
 //!   fv-cachex cache-stress --seed N --rounds N --threads N --out FILE
+//!   fv-cachex cache-sched --seed N --scenarios N --families rmw,rm-evict,clear-ins,overwrite,inval-exp --strategies random,pct3,pct5 --out FILE
+//!   fv-cachex cache-script --script FILE.json --out FILE
 //!
 //! Histories are written as ndjson (one `new` record per history); one JSON line of
 //! statistics goes to stdout.  A panic or a hang inside library code becomes a `panic` /
 //! `hung` record of the history, never a crash of the driver.
 
 mod rt;
+mod sched;
 mod seq;
 mod stress;
 
@@ -145,6 +148,7 @@ fn main() {
     "cache-seq" => cache_seq(&m),
     "cache-script" => cache_script(&m),
     "cache-stress" => stress::run(&m),
+    "cache-sched" => sched::run(&m),
     _ => {
       eprintln!("usage: fv-cachex cache-seq|cache-stress --seed N --programs N --ops N --profiles a,b --out FILE");
       std::process::exit(2);
